@@ -124,6 +124,9 @@ func (s *Solver) discharge(c *Ctx, o *Obligation) {
 		t      int
 	}
 	plan := []attempt{{true, min(3, s.timeoutS)}, {false, min(3, s.timeoutS)}, {true, min(10, s.timeoutS)}, {false, s.timeoutS}}
+	if o.ShortBudget {
+		plan = []attempt{{true, min(3, s.timeoutS)}, {false, min(5, s.timeoutS)}}
+	}
 	if os.Getenv("GOVC_OLDPLAN") != "" {
 		plan = []attempt{{true, min(3, s.timeoutS)}, {true, min(10, s.timeoutS)}, {false, min(3, s.timeoutS)}, {false, s.timeoutS}}
 	}
@@ -135,7 +138,7 @@ func (s *Solver) discharge(c *Ctx, o *Obligation) {
 		if a.sliced && (c.NoSlice || candidate) {
 			continue
 		}
-		if ai >= 2 && a.t <= 3 {
+		if ai >= 2 && a.t <= 3 && !o.ShortBudget {
 			continue // no longer limit than the short attempts
 		}
 		t := a.t
